@@ -112,6 +112,10 @@ class GenericRules(unittest.TestCase):
         self.assertEqual(self.run_named("foreign_dtype_casts", "cast_to_foreign_dtype"), ["VIOLATED"])
         self.assertEqual(self.run_named("foreign_dtype_casts", "cast_to_own_or_promoted_dtype"), ["DISCHARGED"])
 
+    def test_none_sentinel_tested_by_truthiness(self):
+        self.assertIn("VIOLATED", self.run_named("falsy_defaults", "best_by_truthiness"))
+        self.assertNotIn("VIOLATED", self.run_named("falsy_defaults", "best_by_is_none"))
+
     def test_gather_with_the_permutation_itself_is_reported(self):
         self.assertEqual(self.run_rule("nested_windows_wrong"), ["VIOLATED"])
 
